@@ -242,6 +242,14 @@ impl Api {
                 });
                 std::mem::forget(outer);      // a strong listener: the context keeps it; the script cannot unlisten it
                 self.h.insert(l.to_string(), H::P); ok() }
+            ["listenkill", l, x, victim] => { fresh!(l);
+                // a listener whose handler unlistens another listener (every time it runs): from then on the victim must stay silent,
+                // also for the rest of the transaction in which this happens
+                let v = match self.h.get(*victim) { Some(H::L(li)) => Listener { impl_: li.impl_.clone() }, _ => return "skip".into() };
+                let log = self.log.clone(); let name = l.to_string();
+                let k = move |a: &i64| { log.lock().unwrap().push((name.clone(), *a)); v.unlisten(); };
+                let li = if let Some(s) = self.s(x) { s.listen(k) } else if let Some(c) = self.c(x) { c.listen(k) } else { return "skip".into() };
+                self.h.insert(l.to_string(), H::L(li)); ok() }
             ["unlisten", l] => match self.h.get(*l) { Some(H::L(li)) => { li.unlisten(); ok() } _ => "skip".into() },
             ["send", s, v] => { let v = need!(num(v)); match self.h.get(*s) { Some(H::SS(x)) => { x.send(v); ok() } Some(H::CS(x)) => { x.send(v); ok() } _ => "skip".into() } }
             ["sample", c] => { let c = need!(self.c(c)); format!("v={}", c.sample()) }
